@@ -24,6 +24,36 @@ def is_supported_type(x):
     return not (isinstance(x, str) or is_jagged_array(x))
 
 
+def kg_nest_shape(x):
+    """
+    Shape of a rectangular nest of lists/arrays (strings and other values count as scalars),
+    or None when the nest is ragged.
+    """
+    if hasattr(x, 'shape') and not (isinstance(x, np.ndarray) and x.dtype == object):
+        return tuple(x.shape)
+    if isinstance(x, (list, tuple, np.ndarray)):
+        if len(x) == 0:
+            return (0,)
+        subs = {kg_nest_shape(y) for y in x}
+        if len(subs) == 1:
+            s = subs.pop()
+            if s is not None:
+                return (len(x),) + s
+        return None
+    return ()
+
+
+def kg_ragged_array(a, convert):
+    """
+    One-dimensional object array whose elements keep their own shapes.
+    (numpy.asarray(a, dtype=object) merges leading dimensions that happen to agree.)
+    """
+    arr = np.empty(len(a), dtype=object)
+    for i, x in enumerate(a):
+        arr[i] = convert(x) if isinstance(x, (list, tuple)) else x
+    return arr
+
+
 class BackendProvider(ABC):
     """Abstract interface for array backends."""
 
